@@ -112,7 +112,7 @@ class C12(Harness):
     def enabled(self, w, m):
         ops = []
         if len(m.inst) < 3:
-            ops += [['new', 'M', None], ['new', 'Sub', None], ['new', 'M', 'l'], ['new', 'Sub', 'skipref'], ['new', 'M', 'dg'], ['new', 'Leaf', None]]
+            ops += [['new', 'M', None], ['new', 'Sub', None], ['new', 'M', 'l'], ['new', 'Sub', 'skipref'], ['new', 'M', 'dg'], ['new', 'Leaf', None], ['new', 'Sub', 'sel0']]
         holders = list(range(len(m.inst)))
         for i in holders:
             ops += [['iset', i, 'n', 5], ['iupdate', i, 'n', 4], ['iset', i, 's', 'new'], ['iset', i, 'l', 'new'], ['mut', i, 'l'], ['mut', i, 's'], ['mut', i, 'k'], ['mut', i, 'x'], ['mut', i, 'lr'], ['objmut0', i], ['iset', i, 'sel0', 'alpha'],
@@ -203,6 +203,8 @@ class C12(Harness):
                     elif op[2] == 'dg':
                         obj = cls(dg=0.5)              # a plain number for the dynamic parameter, through the constructor
                         vals['dg_plain'] = True
+                    elif op[2] == 'sel0':
+                        obj = cls(sel0='ctor%d' % len(m.inst))       # an open Selector given a new value through the constructor (recorded on the instance only)
                     elif op[2] == 'skipref':
                         def skipper(v):
                             raise param.Skip()
